@@ -846,7 +846,7 @@ def run_full_stream(ctl: explorer.Ctl, cfg: Dict[str, Any]) -> Dict[str, Any]:
     viol: List[dict] = []
 
     def bad(cls, msg, **extra):
-        viol.append({"sig": {"class": cls, "backlog": "fills-the-read-stream" if backlog >= 100 else "leaves-room",
+        viol.append({"sig": {"class": cls, "backlog": "exactly-fills-the-read-stream" if backlog == 100 else ("overfills" if backlog > 100 else "leaves-room"),
                              "late_answer": late, **extra},
                      "msg": f"{backlog} undrained server messages, request id {rid!r} answered 202 then silence until the timeout, "
                             f"late answer: {late}: {msg}"})
@@ -858,9 +858,11 @@ def run_full_stream(ctl: explorer.Ctl, cfg: Dict[str, Any]) -> Dict[str, Any]:
     notes = [m for m in got if isinstance(m, dict) and m.get("method") == "notifications/message" and "i" in (m.get("params") or {})]
     if [m["params"]["i"] for m in notes] != list(range(backlog)):
         bad("backlog-not-delivered-in-order", f"{len(notes)} of {backlog} backlog notifications delivered")
-    blocked = backlog >= 100
-    # with room in the stream the error was delivered before the answer came: the existing rule (one or two) applies;
-    # with a full stream the request is still being finished when the answer comes: exactly one terminal message
+    blocked = backlog == 100
+    # with room in the stream the error was delivered before the answer came, and with MORE than a stream-full of backlog the
+    # reader itself is stuck before the answer and sees it only after the error went out: the existing rule (one or two)
+    # applies; with an exactly full stream the reader takes the answer while the request is still being finished (its timeout
+    # error waits for room): exactly one terminal message
     allowed = (1,) if (blocked or late == "never") else (1, 2)
     if len(mine) not in allowed:
         bad("no-terminal-message" if not mine else "duplicate-terminal", f"{len(mine)} terminal messages: {mine}")
